@@ -179,7 +179,74 @@ def c12(run):
                       "dispatched request (rb_with / rb_without).", extra_assumptions=RT_ASSUME)
 
 
-PROPS = {"C13": c13, "C01": c01, "C02": c02, "C07": c07, "C08": c08, "C09": c09, "C10": c10, "C12": c12}
+# ============================================================== handler chain
+CH_CONST = " N = %d\n MaxOps = %d\n Family = \"%s\"\n Dev = %s\n EmitCases = %s\n"
+
+
+def ch_cfg(n, maxops, fam, dev=(), emit=True):
+    return ("SPECIFICATION Spec\nCONSTANTS\n" + CH_CONST % (n, maxops, fam, vlib.tla_set(dev), "TRUE" if emit else "FALSE") +
+            "INVARIANT PropertyHolds\nINVARIANT Terminates\nINVARIANT StatusAgrees\nCONSTRAINT EmitCase\nCHECK_DEADLOCK FALSE\n")
+
+
+CH_TRACE_CFG = ("SPECIFICATION TSpec\nCONSTANTS\n TraceFile = \"@TRACE@\"\n Dev = @DEV@\n"
+                "CONSTRAINT HW\nPOSTCONDITION Accepted\nCHECK_DEADLOCK FALSE\n")
+CH_ASSUME = ["handlers are the harness' instrumented closures (one per return shape); flamego.Recovery() runs unmodified inside a logging shim",
+             "reflect, net/http are trusted"]
+CH_RULE = ("TLC enumerates every chain of N handler programs + action of the family (operations W/N/C/P, return shapes), runs the "
+           "cursor-level model and checks every prefix of its event sequence against the monitor (layer P); every terminal behaviour is "
+           "replayed on a real Flame (split into middleware / group / route handlers / action or the not-found chain, three invocation "
+           "paths, three environments, five panic value kinds, chosen per case from the seed) and the recorded events are validated by "
+           "TLC with the same monitor; random chains up to depth 8 with programs up to 5 operations. Non-trivial = some handler has an "
+           "operation or a return value; distinct = distinct case inputs.")
+
+
+def ch_family(run, label, n, maxops, fam, max_cases=None):
+    r = run.model_check("Chain", ch_cfg(n, maxops, fam), name="CH_" + label, want_cases=True, heap="24g")
+    if max_cases is None:
+        max_cases = 15000 if run.tier == "quick" else 300000
+    cf = vlib.subsample(r["cases_file"], max_cases, run.seed, run)
+    return run.conformance(label, "chain", cf, "ChainTrace", CH_TRACE_CFG, env={"VERIF_SEED": str(run.seed)})
+
+
+def ch_random(run, label, kind, n):
+    gen = os.path.join(run.work, label + ".jsonl")
+    with open(gen, "w") as fo:
+        p = run.hrun(["chain", "gen", run.seed, n, kind], stdout=fo)
+    if p.returncode != 0:
+        raise Infra("chain gen failed: " + p.stderr[-2000:])
+    return run.conformance(label, "chain", gen, "ChainTrace", CH_TRACE_CFG)
+
+
+def c03(run):
+    quick = run.tier == "quick"
+    run.build_harness()
+    run.tlc("Chain", ch_cfg(3, 2, "chain", dev=["D8"], emit=False), name="CH_neg_D8", expect_violation="PropertyHolds", heap="24g")
+    ch_family(run, "chain_n2", 2, 2, "chain")
+    if not quick:
+        ch_family(run, "chain_n3", 3, 2, "chain")
+    ch_random(run, "rand_chain", "chain", 1500 if quick else 100000)
+    return run.finish(rule=CH_RULE, extra_assumptions=CH_ASSUME)
+
+
+def c14(run):
+    quick = run.tier == "quick"
+    run.build_harness()
+    ch_family(run, "ret_n2", 2, 1, "ret")
+    ch_random(run, "rand_ret", "ret", 1500 if quick else 100000)
+    return run.finish(rule=CH_RULE, extra_assumptions=CH_ASSUME)
+
+
+def c15(run):
+    quick = run.tier == "quick"
+    run.build_harness()
+    ch_family(run, "rec_n2", 2, 2, "rec")
+    if not quick:
+        ch_family(run, "rec_n3", 3, 2, "rec")
+    ch_random(run, "rand_rec", "rec", 1500 if quick else 100000)
+    return run.finish(rule=CH_RULE, extra_assumptions=CH_ASSUME)
+
+
+PROPS = {"C03": c03, "C14": c14, "C15": c15, "C13": c13, "C01": c01, "C02": c02, "C07": c07, "C08": c08, "C09": c09, "C10": c10, "C12": c12}
 
 
 def main():
